@@ -13,7 +13,7 @@ from .terms import A, F, V, L, NIL, pp
 X, Y, Z, W = V('X'), V('Y'), V('Z'), V('W')
 VARS = [X, Y, Z, W]
 EQS = [(X, Y), (Y, Z), (Z, W), (Y, A('b')), (Z, A('a')), (X, F('f', Y)), (Y, F('g', Z, W)), (W, A('c')), (X, Z),
-       (Z, L([W], NIL))]
+       (Z, L([W], NIL)), (X, L([A('a')], Y))]
 
 
 def raw(t, names):
